@@ -320,6 +320,23 @@ class Interp:
     def assign(self, t, v, ctx, env):
         if isinstance(t, ast.Name):
             env[t.id] = v
+        elif isinstance(t, (ast.Tuple, ast.List)) and any(isinstance(e, ast.Starred) for e in t.elts):
+            seq = models.to_seq(self, ctx, v)
+            if not isinstance(seq, tuple):
+                raise PyvcUnsupported(f'starred unpacking of a symbolic-length sequence at {self.where(t)}')
+            k = [i for i, e in enumerate(t.elts) if isinstance(e, ast.Starred)]
+            if len(k) != 1:
+                raise PyvcUnsupported('two starred targets')
+            k = k[0]
+            after = len(t.elts) - k - 1
+            if len(seq) < len(t.elts) - 1:
+                self.raise_if(ctx, True, ValueError, 'unpack@' + self.where(t))
+                return
+            for tt, vv in zip(t.elts[:k], seq[:k]):
+                self.assign(tt, vv, ctx, env)
+            self.assign(t.elts[k].value, ctx.alloc('list', tuple(seq[k:len(seq) - after])), ctx, env)
+            for tt, vv in zip(t.elts[k + 1:], seq[len(seq) - after:] if after else ()):
+                self.assign(tt, vv, ctx, env)
         elif isinstance(t, (ast.Tuple, ast.List)):
             seq = models.to_seq(self, ctx, v)
             if isinstance(seq, SymSeq):
@@ -347,6 +364,30 @@ class Interp:
             models.setitem(self, ctx, obj, idx, v, t)
         else:
             raise PyvcUnsupported(f'assignment target {type(t).__name__} at {self.where(t)}')
+
+    def st_Delete(self, st, ctx, env):
+        for t in st.targets:
+            if isinstance(t, ast.Name):
+                env[t.id] = UNBOUND
+            else:
+                raise PyvcUnsupported(f'del of {type(t).__name__} at {self.where(t)}')
+
+    def st_Import(self, st, ctx, env):
+        import importlib
+        for a in st.names:
+            mod = importlib.import_module(a.name)
+            if a.asname:
+                env[a.asname] = mod
+            else:
+                env[a.name.split('.')[0]] = importlib.import_module(a.name.split('.')[0])
+
+    def st_ImportFrom(self, st, ctx, env):
+        import importlib
+        if st.level:
+            raise PyvcUnsupported(f'relative import inside a function at {self.where(st)}')
+        mod = importlib.import_module(st.module)
+        for a in st.names:
+            env[a.asname or a.name] = self.from_native(getattr(mod, a.name))
 
     def st_FunctionDef(self, st, ctx, env):
         env[st.name] = Closure(st, env, env.get('__module__'), qual=(self.stack[-1] if self.stack else '') + '.' + st.name)
@@ -428,15 +469,17 @@ class Interp:
             pat = case.pattern
             if case.guard is not None:
                 raise PyvcUnsupported('match guard')
-            if isinstance(pat, ast.MatchValue):
-                val = self.eval(pat.value, cx, ev)
-                c = self.eq(subj, val, cx)
-            elif isinstance(pat, ast.MatchAs) and pat.pattern is None and pat.name is None:
-                c = True
-            elif isinstance(pat, ast.MatchSingleton):
-                c = self.is_(subj, pat.value, cx)
-            else:
+            def test(pat):
+                if isinstance(pat, ast.MatchValue):
+                    return self.eq(subj, self.eval(pat.value, cx, ev), cx)
+                if isinstance(pat, ast.MatchAs) and pat.pattern is None and pat.name is None:
+                    return True
+                if isinstance(pat, ast.MatchSingleton):
+                    return self.is_(subj, pat.value, cx)
+                if isinstance(pat, ast.MatchOr):
+                    return Or_(*[test(p) for p in pat.patterns])
                 raise PyvcUnsupported(f'match pattern {type(pat).__name__} at {self.where(st)}')
+            c = test(pat)
             self.branch(c, cx, ev, lambda c2, e2: self.exec_block(case.body, c2, e2),
                         lambda c2, e2: go(cases[1:], c2, e2))
         go(st.cases, ctx, env)
@@ -692,6 +735,32 @@ class Interp:
 
     def ex_Set(self, n, ctx, env):
         return ctx.alloc('set', self.ex_Tuple(n, ctx, env))
+
+    def ex_NamedExpr(self, n, ctx, env):
+        # `name := value` binds in the current function scope and yields the value.  (Inside a comprehension Python binds in
+        # the enclosing scope; the comprehension's working environment is a copy, so such a binding would not be seen after it:
+        # that use is rejected.)
+        if env.get('__comp__', None) is not None:
+            raise PyvcUnsupported(f'walrus inside a comprehension at {self.where(n)}')
+        v = self.eval(n.value, ctx, env)
+        env[n.target.id] = v
+        return v
+
+    def ex_DictComp(self, n, ctx, env):
+        pair = ast.Tuple(elts=[n.key, n.value], ctx=ast.Load())
+        ast.copy_location(pair, n)
+        fake = ast.ListComp(elt=pair, generators=n.generators)
+        ast.copy_location(fake, n)
+        pairs = self.comprehension(fake, ctx, env)
+        if not isinstance(pairs, tuple):
+            raise PyvcUnsupported(f'dict comprehension over a symbolic-length sequence at {self.where(n)}')
+        d = {}
+        for kv in pairs:
+            k, v = kv
+            if not models.is_concrete(k):
+                raise PyvcUnsupported(f'dict comprehension with a symbolic key at {self.where(n)}')
+            d[k] = v
+        return ctx.alloc('dict', d)
 
     def ex_Attribute(self, n, ctx, env):
         obj = self.eval(n.value, ctx, env)
